@@ -8,18 +8,19 @@ Input lines are `op\tobs` as written by harness/c03 (see the header of
 c03_test.go for the op and observation grammar).
 
 `modeld_c03 accept` : → `ok` / `REJECT why`.  The FIFO-network model
-  (`Model/FifoNet.lean`, `fire`) is driven by the observation: every item the
-  implementation's service goroutines issued is issued in the model in the same
-  per-service order (`issue`; for a worker's closure `post`, `send`, `run`, which
-  must be the worker's oldest outstanding post); then, connection by connection
-  and arrival by arrival, the model is stepped (`deliver` of the sender's
-  transport queue, `process` of the front mailbox, `write`) just far enough for
-  the observed item to be written to the model's socket — the interleaving of
-  different issuers is the scheduler's free choice, everything else (the item
-  the model writes next on that connection) must be *equal* to what the client
-  read.  An observation the model cannot produce (an item overtaking an earlier
-  one of its thread, a lost / duplicated / invented item, a merge of the front
-  mailbox that contradicts another connection's stream) is rejected.
+  (`Model/FifoNet.lean`, `fireAt` = `fire`) is driven by the observation: a
+  confluent search for a schedule in which every service issues in the order of
+  its own goroutine's log (`issue`; for a worker's closure `post`, `send`, `run`,
+  which must be the worker's oldest outstanding post), the front merges the
+  senders' queues into its mailbox (`deliver`, `process`) interleaved with what
+  its own goroutine issued, and every connection's writer (`write`) writes
+  exactly the stream its client read.  An item is issued in the model when it
+  is due (the model may issue at any time), so the model's queues stay short.
+  The interleaving of different issuers is the scheduler's free choice;
+  everything else must be *equal*: an observation the model cannot produce (an
+  item overtaking an earlier one of its thread, a lost / duplicated / invented
+  item, a mailbox merge that contradicts another connection's stream, something
+  still under way towards an open client at `settle`) is rejected.
 `modeld_c03 spec`   : the property predicate itself on the implementation's
   observations, with its own bookkeeping (independent of the model):
   per (service, thread, client) the arrival counters must be 0,1,2,… in arrival
@@ -228,8 +229,7 @@ def tabulate {α : Type} (n : Nat) (f : Nat → α) : Array α := ((List.range n
 services < 8, clients < 16, workers < 256 — what the harness uses): keeps the
 closures produced by `upd` from nesting ever deeper.  The tables are computed
 here, once; the new fields only index them. -/
-def normalize (s : St) : St :=
-  let tOut := tabulate (NS * NT) (fun i => s.out ⟨i / NT, i % NT⟩)
+def normalize (full : Bool) (s : St) : St :=
   let tDet := tabulate NS s.detached
   let tTask := tabulate NS s.task
   let tTr := tabulate NS s.transport
@@ -237,8 +237,7 @@ def normalize (s : St) : St :=
   let tLost := tabulate NC s.lost
   let tSock := tabulate NC s.socket
   let tCl := tabulate NC s.closed
-  { s with
-    out := fun σ => if σ.svc < NS ∧ σ.thr < NT then (tOut.getD (σ.svc * NT + σ.thr) none) else none
+  let s1 : St := { s with
     detached := fun q => tDet.getD q []
     task := fun q => tTask.getD q []
     transport := fun q => tTr.getD q []
@@ -246,19 +245,45 @@ def normalize (s : St) : St :=
     lost := fun q => tLost.getD q []
     socket := fun q => tSock.getD q []
     closed := fun q => tCl.getD q false }
+  if full then
+    let tOut := tabulate (NS * NT) (fun i => s.out ⟨i / NT, i % NT⟩)
+    { s1 with out := fun σ => if σ.svc < NS ∧ σ.thr < NT then (tOut.getD (σ.svc * NT + σ.thr) none) else none }
+  else s1
 
 structure AccSt where
   s : St := {}
   pend : List (Src × List Item) := []    -- handed to Post, closure not yet executed
-  frontQ : List LogEnt := []             -- the front goroutine's log, not yet replayed in the model
+  logQ : List (Nat × List LogEnt) := []  -- per service: its goroutine's log, not yet replayed in the model
+  cnt : List ((Nat × Nat × Nat) × Nat) := []   -- per (service, thread, client): items issued in the model so far (= `nextSeq`)
   nfire : Nat := 0
 
+def AccSt.count (a : AccSt) (σ : Src) (c : Nat) : Nat :=
+  match a.cnt.find? (fun e => e.1 = (σ.svc, σ.thr, c)) with
+  | some e => e.2
+  | none => 0
+
+def AccSt.bump (a : AccSt) (σ : Src) (c : Nat) : AccSt :=
+  let k := (σ.svc, σ.thr, c)
+  if a.cnt.any (fun e => e.1 = k) then { a with cnt := a.cnt.map (fun e => if e.1 = k then (k, e.2 + 1) else e) }
+  else { a with cnt := a.cnt ++ [(k, 1)] }
+
+/-- one model step.  `fireAt` with the driver's own counters: `a.count σ c` is the
+number of items of `σ` towards `c` issued in the model so far, i.e. `nextSeq a.s σ c`
+(kept incrementally instead of re-counting the ghost log), so this is `fire`
+(`fireAt_congr`). -/
 def AccSt.fire (a : AccSt) (l : Label) : Option AccSt :=
-  match FifoNet.fire cfg a.s l with
+  match FifoNet.fireAt cfg a.s (fun σ c => a.count σ c) l with
   | none => none
   | some s' =>
     let n := a.nfire + 1
-    some { a with s := if n % 32 = 0 then normalize s' else s', nfire := n }
+    let a := match l with
+      | .issue S c _ => a.bump ⟨S, 0⟩ c
+      | .post S p c _ => a.bump ⟨S, p + 1⟩ c
+      | _ => a
+    -- the ghost log and the written streams are not read by `fireAt`; the driver does not keep them
+    -- (the item a `write` moves is compared with the observation before it is fired)
+    let s' : St := { s' with issued := [], socket := fun _ => [], lost := fun _ => [] }
+    some { a with s := if n % 32 = 0 then normalize (n % 1024 = 0) s' else s', nfire := n }
 
 def pendGet (p : List (Src × List Item)) (σ : Src) : List Item :=
   match p.find? (fun e => e.1 = σ) with
@@ -270,8 +295,10 @@ def pendSet (p : List (Src × List Item)) (σ : Src) (l : List Item) : List (Src
 
 /-- one entry of a service goroutine's log: the service hands the item to the framework -/
 def accLog (a : AccSt) (svc : Nat) : LogEnt → Except String AccSt
-  | .d c _ k =>
-    match a.fire (.issue svc c k) with
+  | .d c n k =>
+    if a.count ⟨svc, 0⟩ c ≠ n then
+      .error s!"service {svc} issued {svc}.0>{c}#{n} but it is item #{a.count ⟨svc, 0⟩ c} of that thread towards that client"
+    else match a.fire (.issue svc c k) with
     | some a' => .ok a'
     | none => .error "issue not enabled"
   | .x thr c n k =>
@@ -280,7 +307,7 @@ def accLog (a : AccSt) (svc : Nat) : LogEnt → Except String AccSt
     match pendGet a.pend σ with
     | [] => .error s!"service {svc} executed a closure of worker {thr} that was never posted"
     | y :: rest =>
-      if y.client = c ∧ y.seq = n ∧ y.kind = k then
+      if y.client = c ∧ y.seq = n ∧ y.kind = k ∧ a.count σ c = n then
         match (a.fire (.post svc (thr - 1) c k)).bind (·.fire (.send svc (thr - 1))) |>.bind (·.fire (.run svc)) with
         | some a' => .ok { a' with pend := pendSet a'.pend σ rest }
         | none => .error "post/send/run not enabled"
@@ -298,70 +325,64 @@ def arrHead (arr : List (Nat × List Item)) (c : Nat) : Option Item :=
 def arrPop (arr : List (Nat × List Item)) (c : Nat) : List (Nat × List Item) :=
   arr.map (fun e => if e.1 = c then (e.1, e.2.drop 1) else e)
 
-/-- which back-end's oldest message in transport can be the front's next
-mailbox message: its connection is closed (it is dropped) or it is exactly the
-next thing that connection's client read -/
-def nextSender (a : AccSt) (arr : List (Nat × List Item)) : Option (Nat × Item × Bool) :=
-  (List.range NS).findSome? fun S =>
-    if S = 0 then none else
-    match a.s.transport S with
-    | h :: _ =>
-      if a.s.closed h.client then some (S, h, false)
-      else if arrHead arr h.client = some h then some (S, h, true) else none
+def logGet (q : List (Nat × List LogEnt)) (S : Nat) : List LogEnt :=
+  match q.find? (fun e => e.1 = S) with
+  | some e => e.2
+  | none => []
+
+def logSet (q : List (Nat × List LogEnt)) (S : Nat) (l : List LogEnt) : List (Nat × List LogEnt) :=
+  if q.any (fun e => e.1 = S) then q.map (fun e => if e.1 = S then (S, l) else e) else q ++ [(S, l)]
+
+/-- which service's oldest not yet replayed item can be the front's next step:
+its connection is closed (the item is dropped) or it is exactly the next thing
+that connection's client read -/
+def nextSender (a : AccSt) (arr : List (Nat × List Item)) : Option (Nat × LogEnt × List LogEnt × Item × Bool) :=
+  a.logQ.findSome? fun (S, l) =>
+    match l with
+    | e :: rest =>
+      let h := entItem S e
+      if a.s.closed h.client then some (S, e, rest, h, false)
+      else if arrHead arr h.client = some h then some (S, e, rest, h, true) else none
     | [] => none
 
-/-- find a schedule of the front (merge of the senders' queues into its mailbox,
-interleaved with what its own goroutine issued) that writes, on every
-connection, exactly the observed stream.  The choice is confluent: an enabled
-step never disables another one. -/
+/-- find a schedule of the model (each service issuing in its own log order, the
+front merging the senders' queues into its mailbox and interleaving what its
+own goroutine issued) that writes, on every connection, exactly the observed
+stream.  An item is issued in the model only when it is due (lazily — the model
+may issue at any time), delivered, processed and written at once, so all
+queues of the model stay short.  The choice is confluent: an enabled step
+never disables another one. -/
 def schedule (fuel : Nat) (a : AccSt) (arr : List (Nat × List Item)) : Except String AccSt :=
   match fuel with
   | 0 => .error "out of fuel"
   | fuel + 1 =>
     match nextSender a arr with
-    | some (S, h, consume) =>
-      match (a.fire (.deliver S)).bind (·.fire .process) with
-      | none => .error "deliver/process not enabled"
-      | some a1 =>
-        if consume then
-          match a1.s.chSend h.client with
-          | [y] =>
-            if y = h then
-              match a1.fire (.write h.client) with
-              | some a2 => schedule fuel a2 (arrPop arr h.client)
-              | none => .error "write not enabled"
-            else .error s!"the model's connection {h.client} would write {showItem y}, the client read {showItem h}"
-          | _ => .error s!"the model's connection {h.client} has other messages queued in front of {showItem h}"
-        else schedule fuel a1 arr
+    | some (S, e, rest, h, consume) =>
+      match accLog { a with logQ := logSet a.logQ S rest } S e with
+      | .error m => .error m
+      | .ok a0 =>
+        let a1? := if S = 0 then some a0 else (a0.fire (.deliver S)).bind (·.fire .process)
+        match a1? with
+        | none => .error "deliver/process not enabled"
+        | some a1 =>
+          if consume then
+            match a1.s.chSend h.client with
+            | [y] =>
+              if y = h then
+                match a1.fire (.write h.client) with
+                | some a2 => schedule fuel a2 (arrPop arr h.client)
+                | none => .error "write not enabled"
+              else .error s!"the model's connection {h.client} would write {showItem y}, the client read {showItem h}"
+            | _ => .error s!"the model's connection {h.client} does not hold exactly {showItem h}"
+          else schedule fuel a1 arr
     | none =>
-      let stuck : Except String AccSt :=
-        match arr.find? (fun e => e.2 ≠ []) with
-        | none => .ok a
-        | some (c, l) =>
-          let x := l.headD ⟨⟨0, 0⟩, 0, 0, .push⟩
-          let nxt := if x.src.svc = 0 then (a.frontQ.head?.map (entItem 0)) else (a.s.transport x.src.svc).head?
-          .error (s!"client {c} read {showItem x}, but in the model the next message of service {x.src.svc} is " ++
-            (match nxt with | some y => showItem y | none => "none (nothing under way)"))
-      match a.frontQ with
-      | [] => stuck
-      | e :: rest =>
-        let h := entItem 0 e
-        let open_ := !a.s.closed h.client
-        if open_ ∧ arrHead arr h.client ≠ some h then stuck
-        else
-          match accLog { a with frontQ := rest } 0 e with
-          | .error m => .error m
-          | .ok a1 =>
-            if open_ then
-              match a1.s.chSend h.client with
-              | [y] =>
-                if y = h then
-                  match a1.fire (.write h.client) with
-                  | some a2 => schedule fuel a2 (arrPop arr h.client)
-                  | none => .error "write not enabled"
-                else .error s!"the model's connection {h.client} would write {showItem y}, the client read {showItem h}"
-              | _ => .error s!"the model's connection {h.client} does not hold exactly {showItem h}"
-            else schedule fuel a1 arr
+      match arr.find? (fun e => e.2 ≠ []) with
+      | none => .ok a
+      | some (c, l) =>
+        let x := l.headD ⟨⟨0, 0⟩, 0, 0, .push⟩
+        let nxt := (logGet a.logQ x.src.svc).head?.map (entItem x.src.svc)
+        .error (s!"client {c} read {showItem x}, but in the model the next message of service {x.src.svc} is " ++
+          (match nxt with | some y => showItem y | none => "none (nothing under way)"))
 
 def exceptFold {α β : Type} (f : α → β → Except String α) (a : α) (l : List β) : Except String α :=
   l.foldl (fun acc b => match acc with | .ok a => f a b | .error e => .error e) (.ok a)
@@ -370,13 +391,12 @@ def accObs (a : AccSt) (o : Obs) : Except String AccSt := do
   -- posts: remember them (in Post order) with the counter the model will give them
   let a := o.posts.foldl (fun (a : AccSt) (σ, l) =>
     { a with pend := pendSet a.pend σ (pendGet a.pend σ ++ l.map (fun (c, n, k) => (⟨σ, c, n, k⟩ : Item))) }) a
-  -- back-ends: what their goroutines sent enters their transport queues; the front's own log is replayed lazily
-  let a ← exceptFold (fun a (svc, l) =>
-    if svc = 0 then .ok { a with frontQ := a.frontQ ++ l } else exceptFold (fun a e => accLog a svc e) a l) a o.logs
+  -- what the service goroutines issued is replayed lazily, in each service's own order
+  let a := o.logs.foldl (fun (a : AccSt) (svc, l) => { a with logQ := logSet a.logQ svc (logGet a.logQ svc ++ l) }) a
   if o.arrs.any (fun e => e.2.any (·.isNone)) then
     .error "a client read something that is not a tagged push/response (error response?)"
   let arr := o.arrs.map (fun e => (e.1, e.2.filterMap id))
-  let work := (arr.map (·.2.length)).sum + a.frontQ.length + ((List.range NS).map (fun S => (a.s.transport S).length)).sum
+  let work := (arr.map (·.2.length)).sum + (a.logQ.map (·.2.length)).sum
   schedule (work + 8) a arr
 
 def stepAccept (a : AccSt) (line : String) : AccSt × String :=
@@ -407,7 +427,7 @@ def stepAccept (a : AccSt) (line : String) : AccSt × String :=
               | some openL =>
                 let s := a'.s
                 let under := (List.range NS).flatMap (fun S => s.transport S ++ s.task S) ++ s.mailbox ++
-                  openL.flatMap (fun c => s.chSend c) ++ a'.frontQ.map (entItem 0) ++ a'.pend.flatMap (·.2)
+                  openL.flatMap (fun c => s.chSend c) ++ a'.logQ.flatMap (fun e => e.2.map (entItem e.1)) ++ a'.pend.flatMap (·.2)
                 match under.find? (fun x => openL.contains x.client) with
                 | some x => (a', s!"REJECT quiescent, but {showItem x} never reached open client {x.client}")
                 | none => (a', "ok")
